@@ -355,8 +355,8 @@ ConfDrift(r, c, qm2) ==
         posOk == posKnown /\ {posEnt[i][2] : i \in 1..Len(posEnt)} = expEmpty /\ Len(posEnt) = Cardinality(expEmpty)
                  /\ \A i \in 1..Len(posEnt) : posEnt[i][1] = "pos" /\ posEnt[i][3] = qm2[posEnt[i][2]].next
         \* OnDelay persists or not depending on the clock: either branch is the specification's (Wal.tla: `due`)
-        variants == CASE c.policy \in {"on_delay_0_flush", "on_delay_long_flush"} -> {"do_nothing", "always_flush"}
-                      [] c.policy \in {"on_delay_0_fsync", "on_delay_long_fsync"} -> {"do_nothing", "always_fsync"}
+        variants == CASE c.policy \in {"on_delay_0_flush", "on_delay_long_flush", "on_delay_us_flush"} -> {"do_nothing", "always_flush"}
+                      [] c.policy \in {"on_delay_0_fsync", "on_delay_long_fsync", "on_delay_us_fsync"} -> {"do_nothing", "always_fsync"}
                       [] OTHER -> {c.policy}
         expIos == {CallFsPlan(call.op, ownLen, c.prevW[1], c.prevW[2], trk0, refsAfter, lens, pol, TRUE) : pol \in variants}
     IN  (IF ~ownOk THEN {"the call's own WAL entry differs from the specification's"} ELSE {})
